@@ -313,6 +313,8 @@ class Gen13(Gen):
             opts += [(2, 'branch-alias')]
         if depth > 0 and ls:
             opts += [(2, 'pairs'), (2, 'for-rebind')]
+        if ls and [v for v in lls if fn.len_lb.get(v, 0) > 0]:
+            opts += [(3, 'deep-store')]
         k = ch.weighted(opts)
         if k == 'newLL':
             v = self.pick_name(fn, 'LL', 'xss')
@@ -465,6 +467,32 @@ class Gen13(Gen):
                 if n in after[1]:
                     fn.len_lb[n] = min(fn.len_lb[n], after[1][n])
             self.features.add('alias:iteration')
+        elif k == 'deep-store':
+            # a multi-index store of a list, three levels deep, read back under another name
+            cands = [v for v in lls if fn.len_lb.get(v, 0) > 0]
+            a = ch.choice(cands)
+            b = ch.choice(lls)
+            l = ch.choice(ls)
+            g = fn.fresh('g')
+            i = ch.int(0, fn.len_lb[a] - 1)
+            first = ch.bool(0.5) or fn.len_lb.get(b, 0) <= 0
+            out.append(f'{ind}{g} = [{a}, {b}]' if first else f'{ind}{g} = [{b}, {a}]')
+            kk = 0 if first else 1
+            out.append(f'{ind}{g}[{kk}][{i}] = {l}')
+            self.lower_rows(fn.len_lb.get(l, 0))
+            cell = self.pick_name(fn, 'L', 'cell')
+            form = ch.int(0, 2)
+            if form == 0:
+                out.append(f'{ind}{cell} = {g}[{kk}][{i}]')
+            elif form == 1:
+                pl = fn.fresh('pl')
+                out.append(f'{ind}{pl} = {g}[{kk}]')
+                self.bind(fn, pl, 'LL', fn.len_lb[a], 0)
+                out.append(f'{ind}{cell} = {pl}[{i}]')
+            else:
+                out.append(f'{ind}{cell} = {a}[{i}]')
+            self.bind(fn, cell, 'L', fn.len_lb.get(l, 0))
+            self.features.add('alias:deep-store')
         elif k == 'pairs':
             # a list of tuples that hold lists: element parts are tuples, fields are lists
             a, b = ch.choice(ls), ch.choice(ls)
@@ -944,6 +972,8 @@ def gen_value(ch: Chooser, t, minlen=0, minrow=0):
     if t == 'L':
         k = minlen + ch.weighted([(3, 0), (3, 1), (2, 2), (1, 3)])
         return [ch.choice(R_POOL) for _ in range(k)]
+    if t == 'LLL':
+        return [[[ch.choice(R_POOL) for _ in range(1 + ch.int(0, 2))] for _ in range(2 + ch.int(0, 1))] for _ in range(2 + ch.int(0, 1))]
     if t == 'LL':
         k = minlen + ch.weighted([(3, 0), (3, 1), (2, 2)])
         same = ch.bool(0.5)
@@ -1274,6 +1304,23 @@ def main(a0: list[list[fp.Real]], a1: list[fp.Real], a2: fp.Real) -> fp.Real:
     late[0] = a2
     return row[0] + top[0] + c0[0] + p[0] + q[0] + keep[0] + first[0] + pick[0] + a1[0]
 ''', [('main', [('a0', 'LL'), ('a1', 'L'), ('a2', 'R')], {'a0': 2, 'a1': 1}, {'a0': 1})]),
+    ('alias-deep-store', '''
+@fp.fpy
+def main(a0: list[list[list[fp.Real]]], a1: fp.Real) -> fp.Real:
+    row = [a1, a1]
+    a0[{lo}][1] = row
+    cell = a0[{lo}][1]
+    plane = a0[{lo}]
+    other = plane[{hi}]
+    cube = [a0, a0[:]]
+    cube[1][{lo}][0] = cell
+    back = cube[1][{lo}][0]
+    for pl in a0:
+        pl[0] = other
+    last = a0[1][0]
+    cell[0] = 7
+    return row[0] + back[0] + last[0]
+''', [('main', [('a0', 'LLL'), ('a1', 'R')], {}, {})]),
     ('alias-slice-vs-construction', '''
 @fp.fpy
 def main(a0: list[list[fp.Real]], a1: list[fp.Real]) -> fp.Real:
